@@ -354,4 +354,93 @@ theorem entries_augmentOriginalImports (importPath : String) (f : File) :
     split <;> simp
   · rfl
 
+/-! ### L4: `pruneImports` keeps the entries -/
+
+theorem mapImportsSpec_comp (g1 g2 : ImportSpec → Option ImportSpec) (s : Option Spec) :
+    mapImportsSpec g2 (mapImportsSpec g1 s) = mapImportsSpec (fun i => (g1 i).bind g2) s := by
+  cases s with
+  | none => rfl
+  | some s =>
+    cases s with
+    | type => rfl
+    | value => rfl
+    | imp i =>
+      simp only [mapImportsSpec]
+      cases g1 i <;> rfl
+
+theorem mapImportsDecl_comp (g1 g2 : ImportSpec → Option ImportSpec) (d : Option Decl) :
+    mapImportsDecl g2 (mapImportsDecl g1 d) = mapImportsDecl (fun i => (g1 i).bind g2) d := by
+  cases d with
+  | none => rfl
+  | some d =>
+    cases d with
+    | func f => rfl
+    | gen tok dirs doc specs =>
+      simp only [mapImportsDecl, List.map_map]
+      congr 2
+      apply List.map_congr_left
+      intro s _
+      exact mapImportsSpec_comp g1 g2 s
+
+theorem mapImports_comp (g1 g2 : ImportSpec → Option ImportSpec) (f : File) :
+    mapImports g2 (mapImports g1 f) = mapImports (fun i => (g1 i).bind g2) f := by
+  simp only [mapImports, List.map_map]
+  congr 1
+  apply List.map_congr_left
+  intro d _
+  exact mapImportsDecl_comp g1 g2 d
+
+theorem entries_of_isOnlyImports (f : File) (h : isOnlyImports f = true)
+    (hNoType : ∀ d ∈ f.decls, ∀ dirs doc specs, d = some (Decl.gen Tok.imp dirs doc specs) →
+      ∀ s ∈ specs, ∀ id name dirs' sels cms, s ≠ some (Spec.type id name dirs' sels cms)) :
+    entries f = [] := by
+  unfold entries
+  rw [flatMap_filterMap_id, List.flatMap_eq_nil_iff]
+  intro d hd
+  unfold isOnlyImports at h
+  rw [List.all_eq_true] at h
+  have hd' := h d hd
+  cases d with
+  | none => rfl
+  | some d =>
+    cases d with
+    | func fn => simp at hd'
+    | gen tok dirs doc specs =>
+      cases tok with
+      | imp =>
+        simp only [Option.elim, Decl.entries_gen]
+        unfold genEntries
+        rw [if_neg (by decide), flatMap_filterMap_id, List.flatMap_eq_nil_iff]
+        intro s hs
+        cases s with
+        | none => rfl
+        | some s =>
+          cases s with
+          | type id name dirs' sels cms => exact absurd rfl (hNoType _ hd dirs doc specs rfl _ hs id name dirs' sels cms)
+          | value => rfl
+          | imp => rfl
+      | const => simp at hd'
+      | type => simp at hd'
+      | var => simp at hd'
+
+theorem entries_pruneImports (f : File)
+    (hImp : ∀ d ∈ f.decls, ∀ tok dirs doc specs, d = some (Decl.gen tok dirs doc specs) → tok = Tok.const →
+      ∀ s ∈ specs, ∀ i, s ≠ some (Spec.imp i))
+    (hNoType : ∀ d ∈ f.decls, ∀ dirs doc specs, d = some (Decl.gen Tok.imp dirs doc specs) →
+      ∀ s ∈ specs, ∀ id name dirs' sels cms, s ≠ some (Spec.type id name dirs' sels cms)) :
+    entries (pruneImports f) = entries f := by
+  simp only [pruneImports]
+  split
+  · rename_i h
+    have h1 : isOnlyImports f = true := by
+      simp only [Bool.and_eq_true] at h; exact h.1
+    rw [entries_of_isOnlyImports f h1 hNoType]
+    rfl
+  · split
+    · rfl
+    · split
+      · exact entries_mapImports _ f hImp
+      · rw [entries_finalizeRemovals, mapImports_comp]
+        exact entries_mapImports _ f hImp
+
 end GV.Augment
